@@ -572,10 +572,12 @@ func (pp *partitionProducer) dispatch() {
 			// a new retry level sends its fin chaser through the current broker producer: make sure there is one
 			// (the previous level may have ended on a failed leader lookup, leaving brokerProducer nil)
 			if err := pp.updateLeader(); err != nil {
+				verifPoint("pp.leader", pp, err)
 				pp.parent.returnError(msg, err)
 				pp.backoff(msg.retries)
 				continue
 			}
+			verifPoint("pp.leader", pp, nil)
 			Logger.Printf("producer/leader/%s/%d selected broker %d\n", pp.topic, pp.partition, pp.leader.ID())
 		}
 
